@@ -260,6 +260,9 @@ def _worker(item):
                 res['counters']['nontrivial'] += 1
             if split:
                 res['counters']['multi_session'] += 1
+            if len(seq) == 1 and oc in ('equal', 'deviates'):
+                k_ = 'accepted_shape_%d' % seq[0]
+                res['counters'][k_] = res['counters'].get(k_, 0) + 1
             if why is not None and len(res['violations']) < 25:
                 kinds = sorted(set(assign[o[3]] for c in calls for o in c if o[0] in ('C', 'C*')))
                 res['violations'].append({
@@ -293,6 +296,7 @@ def run(ctx):
             vac.append('no program with outcome ' + need)
     if not c.get('multi_session'):
         vac.append('no multi-session program')
+    vac += W.shape_vacuity(c)
     # writer-state machine: (root written, groups written) - tiny, reported for completeness
     states = len(m['distinct'])
     cov = {'states': states, 'transitions': c['programs'], 'traces_validated_against_impl': c['programs'],
